@@ -475,6 +475,47 @@ def search_c05(ctx):
                 v *= x ** (k if gi == 0 else -k)
         return v
 
+    # registry rows that differ from the table: read the declaration a second, independent way (a plain regular
+    # expression over src/si/<module>.rs); when that reading agrees with the table, the run-time registry
+    # disagrees with the declaration — the unit is the failing input
+    import re as _re
+    from main import REPO
+    decl_cache = {}
+
+    def declared(module):
+        if module not in decl_cache:
+            d = {}
+            try:
+                with open(os.path.join(REPO, 'src', 'si', module + '.rs'), encoding='utf-8') as f:
+                    src = f.read()
+                for m in _re.finditer(r'@(\w+)\s*:[^;]*;\s*"((?:[^"\\]|\\.)*)"\s*,\s*"((?:[^"\\]|\\.)*)"\s*,\s*"((?:[^"\\]|\\.)*)"\s*;', src):
+                    d[m.group(1)] = tuple(bytes(x, 'utf-8').decode('unicode_escape').encode('latin-1').decode('utf-8') if '\\' in x else x for x in m.group(2, 3, 4))
+            except OSError:
+                pass
+            decl_cache[module] = d
+        return decl_cache[module]
+
+    def unhex(x):
+        return bytes.fromhex(x[1:]).decode('utf-8', 'replace') if x.startswith('x') else x
+
+    table_labels = {(q['module'], u['name']): (u['abbr'], u['sing'], u['plur']) for q in t['quantities'] for u in q['units']} \
+        if t['quantities'] and 'abbr' in t['quantities'][0]['units'][0] else {}
+    for pr in list(ctx.problems):
+        if getattr(pr, 'tag', None) != 'registry-dump' or not (pr.line or '').startswith('unit '):
+            continue
+        f = pr.line.split(' ')
+        if len(f) < 7:
+            continue
+        module, name = f[1], f[3]
+        got = tuple(unhex(x) for x in f[4:7])
+        want = declared(module).get(name)
+        tl = table_labels.get((module, name))
+        if want is not None and got != want and (tl is None or tuple(tl) == want):
+            ctx.problems.append(Problem(
+                'property-fails',
+                'unit %s::%s: the run-time registry / Unit trait publishes the labels %r, the declaration says %r' % (module, name, got, want),
+                line='unit %s %s registry=%r declared=%r' % (module, name, got, want), failing_input=True,
+                cmd=bin_path('reg', False, 'fl'), tag='registry-labels'))
     for m, u in [tuple(x) for x in t.get('compose', {}).get('misnamed', [])]:
         if (m, u) not in misn:
             ctx.problems.append(Problem('property-fails', 'unit %s::%s: its identifier reads as a composition of another dimension than the quantity has' % (m, u),
